@@ -71,16 +71,16 @@ impl TokCase {
 /// what the implementation returned, canonicalised
 #[derive(Clone, Debug, PartialEq)]
 pub struct Seen {
-    access: String,
-    tt_kind: u8,
-    tt_ref: String,
-    expires: Option<u64>,
-    refresh: Option<String>,
-    scopes: Option<Vec<String>>,
-    ext: Option<(String, Option<u64>)>,
+    pub(crate) access: String,
+    pub(crate) tt_kind: u8,
+    pub(crate) tt_ref: String,
+    pub(crate) expires: Option<u64>,
+    pub(crate) refresh: Option<String>,
+    pub(crate) scopes: Option<Vec<String>>,
+    pub(crate) ext: Option<(String, Option<u64>)>,
 }
 
-fn seen_of<EF: ExtraTokenFields>(t: &StandardTokenResponse<EF, BasicTokenType>, ext: Option<(String, Option<u64>)>) -> Seen {
+pub(crate) fn seen_of<EF: ExtraTokenFields>(t: &StandardTokenResponse<EF, BasicTokenType>, ext: Option<(String, Option<u64>)>) -> Seen {
     let (k, r) = match t.token_type() {
         BasicTokenType::Bearer => (0, "bearer".to_string()),
         BasicTokenType::Mac => (1, "mac".to_string()),
@@ -105,7 +105,7 @@ fn seen_of<EF: ExtraTokenFields>(t: &StandardTokenResponse<EF, BasicTokenType>, 
     }
 }
 
-fn show(s: &Option<Seen>) -> String {
+pub(crate) fn show(s: &Option<Seen>) -> String {
     match s {
         None => "e".into(),
         Some(s) => {
